@@ -227,3 +227,58 @@ def run_driver_parallel(exe, lines, variant='asan', args=(), workers=None, timeo
                 rc = r
             bad += b
     return events, '\n'.join(errs), rc, bad
+
+
+def _line_id(line):
+    for tok in line.split():
+        if tok.startswith('id='):
+            return tok[3:]
+    return None
+
+
+def summarize_sanitizer(err):
+    """Stable short key for a sanitizer / crash report on stderr."""
+    import re
+    m = re.search(r'([\w/\.\-]+):(\d+):\d+: runtime error: ([^\n]*)', err)
+    if m:
+        msg = re.sub(r'-?\d[\d\.e\+]*', 'N', m.group(3))[:80]
+        return 'ubsan:%s:%s' % (os.path.basename(m.group(1)), msg)
+    m = re.search(r'ERROR: AddressSanitizer: ([\w\-]+)', err)
+    if m:
+        fr = re.search(r'#\d+ 0x[0-9a-f]+ in ([^\s(]+)[^\n]*?(/repo/[^\s:]+|/usr/include/[^\s:]+)', err)
+        return 'asan:%s:%s' % (m.group(1), (fr.group(1)[:60] if fr else '?'))
+    m = re.search(r'VH-TERMINATE ([^\n]*)', err)
+    if m:
+        return 'terminate:' + m.group(1).strip()
+    if 'LeakSanitizer' in err:
+        return 'leak'
+    m = re.search(r'Assertion `([^\']*)\' failed', err)
+    if m:
+        return 'assert:' + m.group(1)[:60]
+    return 'crash'
+
+
+def run_cases(exe, lines, variant='asan', args=(), workers=None, timeout=3600, env_extra=None, chunk=None):
+    """Runs id-tagged case lines; returns (events_by_id, crashes) where crashes = [(line, key, stderr_tail, rc)].
+    A chunk whose process dies is re-run line by line so that every crash has a one-case witness."""
+    events, err, rc, bad = run_driver_parallel(exe, lines, variant, args, workers, timeout, env_extra, chunk)
+    by_id = {}
+    for e in events:
+        if isinstance(e, dict) and 'id' in e:
+            by_id[e['id']] = e
+    crashes = []
+    missing = [ln for ln in lines if _line_id(ln) not in by_id]
+    if missing:
+        def one(ln):
+            try:
+                ev, er, r, b = run_driver(exe, [ln], variant, args, timeout, env_extra)
+            except subprocess.TimeoutExpired:
+                return ln, None, 'timeout', -1
+            return ln, (ev[0] if ev else None), er, r
+        with ThreadPoolExecutor(max_workers=workers or NCPU) as ex:
+            for ln, ev, er, r in ex.map(one, missing[:2000]):
+                if ev is not None and r == 0:
+                    by_id[ev['id']] = ev
+                else:
+                    crashes.append((ln, summarize_sanitizer(er), er[-3000:], r))
+    return by_id, crashes
